@@ -370,6 +370,10 @@ def check(ctx):
                 vals = {pl.value if k == "expr" and isinstance(pl, ast.Constant) else None for k, pl in rs}
                 if len(vals) == 1 and None not in vals:
                     cv = vals.pop()        # name = 'aes' (a row of an unrolled dispatch table)
+                elif len(rs) == 1 and rs[0][0] == "expr" and isinstance(rs[0][1], (ast.Dict, ast.Tuple, ast.List, ast.Set)):
+                    elts = rs[0][1].keys if isinstance(rs[0][1], ast.Dict) else rs[0][1].elts
+                    if elts and all(isinstance(x, ast.Constant) for x in elts):
+                        cv = tuple(x.value for x in elts)      # a local table of the known methods
             if isinstance(cv, str) or isinstance(cv, (tuple, list, set, frozenset, dict)):
                 if isinstance(op, (ast.Eq, ast.In)):
                     return False
